@@ -1,3 +1,4 @@
 import TradingVerif.Model.Num
 import TradingVerif.Model.Exchange
 import TradingVerif.Proto
+import TradingVerif.Model.Broker
